@@ -84,6 +84,24 @@ func (vc *VC) doCall(st *State, f *Frame, instr ssa.Value, c *ssa.CallCommon, ar
 	}
 	callee := cl.Fn
 	name := callee.String()
+	if name == "(*sync.Once).Do" && len(args) == 2 {
+		// once.Do(f): f runs iff the Once has not fired yet
+		if fcl, ok := args[1].(*Closure); ok && fcl.Fn.Blocks != nil {
+			vc.used["model:(*sync.Once).Do"] = true
+			p := mutexPtr(vc, args[0])
+			fired := vc.load(st, p)
+			other := st.clone()
+			other.assume(fired)
+			of := other.top()
+			if !deferred {
+				of.idx++
+			}
+			st.assume(Not(fired))
+			vc.store(st, p, tTrue)
+			forks := vc.inline(st, f, nil, fcl.Fn, fcl, nil, nil, deferred)
+			return append(forks, other)
+		}
+	}
 	if h, ok := handlers[name]; ok {
 		vc.used["model:"+name] = true
 		return done(h(vc, st, c, args, pos))
@@ -97,7 +115,7 @@ func (vc *VC) doCall(st *State, f *Frame, instr ssa.Value, c *ssa.CallCommon, ar
 		ct := vc.eng.contractOf(callee)
 		if ct != nil && ct.Opaque && callee != vc.fn {
 			vc.used["opaque (assumed pure and deterministic): "+name] = true
-			return done(vc.opaqueCall(st, callee, args))
+			return done(vc.opaqueCall(st, callee, args, ct.ByRef))
 		}
 		if ct != nil && !ct.Inline && callee != vc.fn && len(cl.Bind) == 0 {
 			if ct.Trusted {
@@ -758,6 +776,9 @@ func (vc *VC) callMods(fn *ssa.Function, c *ssa.CallCommon, li *loopInfo, visiti
 	}
 	if callee.Blocks != nil {
 		ct := vc.eng.contractOf(callee)
+		if ct != nil && ct.Opaque {
+			return nil // pure by contract
+		}
 		if ct != nil && !ct.Inline && c.Value == callee {
 			contractMods(ct, name)
 			return out
@@ -1150,11 +1171,23 @@ func (vc *VC) guardCheckMap(st *State, f *Frame, m ssa.Value, pos token.Pos) {
 // summed-map measures (ghost sums over map values) -- see measure.go
 
 // opaqueCall: the result is an uninterpreted function of the argument values.
-func (vc *VC) opaqueCall(st *State, callee *ssa.Function, args []Value) Value {
+func (vc *VC) opaqueCall(st *State, callee *ssa.Function, args []Value, byref bool) Value {
 	var ts []*Term
 	var sorts []*Sort
-	for _, a := range args {
-		t := vc.term(st, a, "opaque")
+	for i, a := range args {
+		var t *Term
+		// pointers to structs are passed by the value they point to, unless the contract says
+		// the pointees are immutable and identity is enough
+		if !byref && i < len(callee.Params) {
+			if pt, ok := callee.Params[i].Type().Underlying().(*types.Pointer); ok {
+				if vc.eng.st.SortOf(pt.Elem()).Kind == KStruct {
+					t = vc.load(st, vc.asPtr(a, pt.Elem()))
+				}
+			}
+		}
+		if t == nil {
+			t = vc.term(st, a, "opaque")
+		}
 		ts = append(ts, t)
 		sorts = append(sorts, t.Sort)
 	}
@@ -1162,10 +1195,7 @@ func (vc *VC) opaqueCall(st *State, callee *ssa.Function, args []Value) Value {
 	var out Tuple
 	for i := 0; i < res.Len(); i++ {
 		rs := vc.eng.st.SortOf(res.At(i).Type())
-		name := fmt.Sprintf("uf_%s_%d", smtName(callee.String()), i)
-		if len(name) > 70 {
-			name = fmt.Sprintf("uf_%s_%d_%d", smtName(callee.Name()), vc.eng.tagOf(callee.Signature), i)
-		}
+		name := ufName(callee, i)
 		vc.declareFun(name, sorts, rs)
 		out = append(out, App(rs, name, ts...))
 	}
@@ -1224,4 +1254,10 @@ func (vc *VC) checkCallReqs(st *State, f *Frame, c *ssa.CallCommon, fnv Value, a
 		}
 		vc.oblige(st, "callreq["+cr.Clause.Label+"]@"+vc.site(), t, vc.clauseProps(vc.contract, cr.Clause), pos)
 	}
+}
+
+func ufName(callee *ssa.Function, i int) string {
+	n := callee.String()
+	n = strings.ReplaceAll(n, vipnodeMod+"/", "")
+	return fmt.Sprintf("uf_%s_%d", smtName(n), i)
 }
